@@ -1,6 +1,7 @@
 // Minimal standalone reproductions of the findings of the `cluster` family (mode "repro"): each scenario is a few
 // public API calls on real nodes; the result lists what was observed. Used by nobody but humans triaging a finding:
-//   python3 -c "import sys; sys.path.insert(0,'/verif'); from lib import vf; c=vf.Check('C28'); b=c.go_build('cluster'); import json; print(json.dumps(c.harness(b,'repro',{})['extra'],indent=1))"
+//
+//	python3 -c "import sys; sys.path.insert(0,'/verif'); from lib import vf; c=vf.Check('C28'); b=c.go_build('cluster'); import json; print(json.dumps(c.harness(b,'repro',{})['extra'],indent=1))"
 package main
 
 import (
@@ -106,8 +107,8 @@ func repro(_ json.RawMessage, res *vh.Result) error {
 		<-sv.inHandler
 		close(sv.release) // the handler keeps the callback and returns
 		<-sv.published
-		close(sv.ctx.done) // deadline
-		<-sv.exited        // collector finished; Survey is evaluating ctx.Err(), the registry entry still exists
+		close(sv.ctx.done)        // deadline
+		<-sv.exited               // collector finished; Survey is evaluating ctx.Err(), the registry entry still exists
 		for k := 1; k <= 2; k++ { // two late (duplicated) answers of n2 fill the channel of capacity 2
 			d, _ := centrifuge.VerifClusterEncodeSurveyResponse("n2", 1, uint32(k), []byte("late"))
 			w.handle(d)
